@@ -15,9 +15,28 @@ var (
 	getRand sync.Once
 )
 
+// lockedSource makes the shared random source safe for the goroutines that evaluate records in parallel.
+type lockedSource struct {
+	mtx sync.Mutex
+	src rand.Source
+}
+
+func (s *lockedSource) Int63() int64 {
+	s.mtx.Lock()
+	n := s.src.Int63()
+	s.mtx.Unlock()
+	return n
+}
+
+func (s *lockedSource) Seed(seed int64) {
+	s.mtx.Lock()
+	s.src.Seed(seed)
+	s.mtx.Unlock()
+}
+
 func GetRand() *rand.Rand {
 	getRand.Do(func() {
-		random = rand.New(rand.NewSource(time.Now().UnixNano()))
+		random = rand.New(&lockedSource{src: rand.NewSource(time.Now().UnixNano())})
 	})
 	return random
 }
